@@ -136,13 +136,14 @@ def validate_trace(module, trace, tag="PROPFAIL", timeout=1800, env_extra=None):
                 rejected=rejected, fails=fails, drift=drift, specfail=specfail, tool_error=tool_error, out_tail=out[-1500:] if (rc != 0 and not fails) else "")
 
 # ---------------------------------------------------------------- model checking
-def model_check(module, cfg, workers=8, timeout=3600, simulate=None, depth=None, extra=None, mem="8g", tags=()):
+def model_check(module, cfg, workers=8, timeout=3600, simulate=None, depth=None, extra=None, mem="8g", tags=(), bounded=False):
     ensure_dirs()
     meta = os.path.join(WORK, "tlc", "mc-%s-%d" % (cfg, os.getpid()))
     os.makedirs(meta, exist_ok=True)
     env = {"JAVA_TOOL_OPTIONS": "-Xss64m -Xmx%s" % mem}
     cmd = ["timeout", str(timeout), "tlc", "-workers", str(workers), "-metadir", meta, "-cleanup", "-noGenerateSpecTE",
-           "-coverage", "1", "-config", os.path.join(SPEC, cfg + ".cfg")]
+           "-config", os.path.join(SPEC, cfg + ".cfg")]
+    # NB: no "-coverage 1": on Arena.tla TLC's coverage instrumentation hangs at "Starting..." and runs out of memory
     if simulate:
         cmd += ["-simulate", "num=%d" % simulate]
     if depth:
@@ -153,6 +154,12 @@ def model_check(module, cfg, workers=8, timeout=3600, simulate=None, depth=None,
     rc, out, dt = run(cmd, cwd=meta, env=env)
     shutil.rmtree(meta, ignore_errors=True)
     gen, dist = _stats(out)
+    complete = "Model checking completed" in out
+    if not complete:
+        # time-bounded breadth-first exploration: take the last progress line
+        pm = re.findall(r"Progress\((\d+)\).*?: ([\d,]+) states generated.*?, ([\d,]+) distinct states found", out)
+        if pm:
+            gen, dist = int(pm[-1][1].replace(",", "")), int(pm[-1][2].replace(",", ""))
     violated = None
     m = re.search(r"Error: (Invariant (\S+) is violated|Action property (\S+) is violated|Temporal properties were violated|Deadlock reached)", out)
     if m:
@@ -164,13 +171,15 @@ def model_check(module, cfg, workers=8, timeout=3600, simulate=None, depth=None,
         cov[mm.group(1)] = cov.get(mm.group(1), 0) + int(mm.group(4))
     printed = {t: extract_tuples(out, t) for t in tags}
     err = None
-    if rc == 124:
+    if rc == 124 and bounded and not violated and dist > 0:
+        err = None
+    elif rc == 124:
         err = "timeout"
     elif rc != 0 and not violated:
         err = out[-3000:]
-    depthm = re.search(r"The depth of the complete state graph search is (\d+)", out)
+    depthm = re.search(r"The depth of the complete state graph search is (\d+)", out) or (re.findall(r"Progress\((\d+)\)", out) and re.search(r"(\d+)", re.findall(r"Progress\((\d+)\)", out)[-1]))
     return dict(module=module, cfg=cfg, rc=rc, wall=dt, generated=gen, distinct=dist, violated=violated,
-                coverage=cov, error=err, printed=printed, diameter=int(depthm.group(1)) if depthm else None,
+                coverage=cov, error=err, printed=printed, complete=complete, diameter=int(depthm.group(1)) if depthm else None,
                 trace=_extract_cex(out) if violated else None, out_tail=out[-2500:] if (violated or err) else "")
 
 def _extract_cex(out):
